@@ -96,6 +96,8 @@ func cmdCases(args []string) {
 		obs, err = cases.Cacheability(w, raws)
 	case "lru":
 		obs, err = cases.LRU(w, raws)
+	case "response":
+		obs, err = cases.Response(w, raws)
 	default:
 		fatal("unknown kind %s", *kind)
 	}
